@@ -92,12 +92,17 @@ def inline_helpers(crate):
     out = {}
     for b in crate.facts["bodies"]:
         d = b["def"]
-        if b["kind"] not in ("Fn", "AssocFn") or not d.startswith("microscpi::parser::") or "::{" in d or b.get("trait") or b.get("is_async"):
+        if b["kind"] not in ("Fn", "AssocFn") or "::{" in d or b.get("trait") or b.get("trait_default"):
             continue
-        ret = b.get("ret", "")
-        if ret.startswith("core::result::Result<(&") or ret.startswith("impl ") or ret == "bool":
-            continue
-        out[hir.base_path(d)] = b
+        if d.startswith("microscpi::parser::") and not b.get("is_async"):
+            ret = b.get("ret", "")
+            if ret.startswith("core::result::Result<(&") or ret.startswith("impl ") or ret == "bool":
+                continue
+            out[hir.base_path(d)] = b
+        elif d.startswith("microscpi::interface::") and b["kind"] == "Fn":
+            # free helper functions next to run/process (e.g. an extracted "send the response" step): evaluated in place;
+            # for an `async fn` the coroutine body is evaluated at the call and `.await` passes its value through
+            out[hir.base_path(d)] = {"params": b["params"], "value": hir.async_full(b["value"]), "def": d}
     _inl[key] = out
     return out
 
